@@ -120,37 +120,3 @@ fn c07_q_ignorable_chunks_and_srgb_profile() {
     core::mem::forget(b);
 }
 
-/// bytes after the last frame are never read: a reader that fails hard on the first byte past the last frame still loads
-#[kani::proof]
-#[kani::unwind(8)]
-#[kani::stub(alloc::fmt::format, crate::vklib::empty_format)]
-#[kani::stub(std::hash::RandomState::new, crate::vklib::fixed_random_state)]
-fn c07_t_bytes_after_last_frame_unread() {
-    let mut f: [u8; 160] = kani::any();
-    f[4] = 0xE0;
-    f[5] = 0xA5;
-    f[6] = 1;
-    f[7] = 0;
-    f[12] = 32;
-    f[13] = 0;
-    f[34] = 1;
-    f[35] = 1;
-    f[128] = 16;
-    f[129] = 0;
-    f[130] = 0;
-    f[131] = 0;
-    f[132] = 0xFA;
-    f[133] = 0xF1;
-    f[134] = 0;
-    f[135] = 0;
-    f[140] = 0;
-    f[141] = 0;
-    f[142] = 0;
-    f[143] = 0;
-    let r = read_aseprite(LimitReader { data: &f[..], pos: 0, limit: 144, fault: Some(std::io::ErrorKind::Other) });
-    assert!(r.is_ok(), "nothing after the last frame is read");
-    let s = r.unwrap();
-    assert!(s.num_frames() == 1 && s.width() == rd16(&f, 8) as usize);
-    kani::cover!(f[150] == 0xAA);
-    core::mem::forget(s);
-}
